@@ -7,6 +7,26 @@ ALL = ["C%02d" % i for i in range(1, 21)]
 
 # property id -> (level category, level text, level note, technique, design ref)
 CHECKS = {
+ "C10": ("exploration",
+         "Grammar-based and mutation-based execution of the $dnsrewrite parser (quick 4.8e6, thorough 1.4e8 values): every accepted value is judged by a shape predicate written from the RRValue contract, by a consumer that type-asserts by record type, by a determinism check, and - where the documented grammar decides validity - by the generator's expectation (valid => expected content, malformed => error).",
+         "The shape predicate is the trusted statement of the contract; expectations are asserted only for grammar-built values, mutated values are judged by shape alone; the value space is sampled.",
+         "runtime invariant (shape predicate) + expectation oracle over grammar-generated and mutated values",
+         "DESIGN.md section 4, C10"),
+ "C17": ("exploration",
+         "Differential execution against net/url and publicsuffix on generated URLs of exactly the contract shape, hosts from every PSL class plus the 58 k real hosts and the 30 k real request URLs bundled with the repository, including third-party symmetry under swapping (quick 1.1e6, thorough 5e7 requests).",
+         "net/url and golang.org/x/net/publicsuffix are the reference; URLs rejected by net/url and fragments directly after the host are outside the contract; hostnames for NewRequestForHostname are lower-case.",
+         "runtime differential oracle (standard library URL parser and PSL)",
+         "DESIGN.md section 4, C17"),
+ "C18": ("exploration",
+         "Grammar-based execution: lines generated from the hosts-file grammar of the statement (addresses of three families, 1..8 names, spaces/tabs, comments with and without a preceding blank, trailing blanks, hostile comment bodies) through NewRule, NewHostRule and, twelve at a time, through DNSEngine.Match with perturbed names (quick 2.4e6, thorough 1.2e8 evaluations). One genuine defect that is not small to repair is recorded as a known finding and matched narrowly.",
+         "The generator is the reference (it knows address, names, comment); comments that start a cosmetic marker without a preceding blank are outside the grammar by design.",
+         "runtime differential oracle (generator-as-reference) over grammar-generated lines",
+         "DESIGN.md section 4, C18"),
+ "C20": ("exploration",
+         "Byte-level oracle on the real filterHTML (hook VerifFilterHTML): bodies over all 256 byte values, plain or gzip, with markers in random letter case placed before, at, straddling and beyond the 16 KiB window and with high-byte padding that separates byte and transcoded offsets; the output must be exactly body[:i]+tag+body[i:] or the body, with matching Content-Length and no Content-Encoding.",
+         "Between the byte offset bound and the transcoded offset bound either exact outcome is accepted; bodies are sampled.",
+         "runtime byte-exact splice oracle on hooked filterHTML",
+         "DESIGN.md section 4, C20"),
  "C06": ("exploration",
          "Randomised multisets of 1..5 matching rules over the feature combinations of the statement, every one executed in ALL its permutations through NewMatchingResult / GetDNSBasicRule and in sampled permutations through Engine, NetworkEngine and DNSEngine with random list splits; the verdict class is compared with a precedence reference computed on the specs and the selected rule is checked not to be a rewrite, badfilter, disabled or stealth rule. Order dependence is what the tests cannot see, and all-permutations execution reaches it directly.",
          "Reference precedence is written from the statement (a referrer-level $urlblock exception suppresses every blocking rule, $genericblock those without a permitted $domain); multisets are sampled, not enumerated; twins keep value order.",
